@@ -58,6 +58,8 @@ structure DiskEnt where
   path : Path
   size : Nat
   kind : Kind
+  /-- for a symbolic link: its other logical names (`getLogicalFileNames`: where it points) -/
+  alts : List Path := []
   deriving DecidableEq, Repr
 
 /-- one entry of `fileParamMap` (with its key) -/
@@ -66,6 +68,8 @@ structure Entry where
   args : List Arg
   size : Nat
   count : Nat
+  /-- the logical names the arguments were matched against (ghost: not stored by the code) -/
+  names : List Path := []
   deriving DecidableEq, Repr
 
 structure Report where
@@ -88,6 +92,9 @@ def Cfg.filesOf (c : Cfg) (a : Arg) : List Path := (c.argFiles.lookup a).getD []
 
 /-- the argument references the path (equal, ancestor or descendant) -/
 def refs (c : Cfg) (a : Arg) (p : Path) : Bool := anyOverlap [p] (c.filesOf a)
+
+/-- the argument references one of the logical names of a walked entry -/
+def refsN (c : Cfg) (a : Arg) (names : List Path) : Bool := anyOverlap names (c.filesOf a)
 
 structure St where
   fileArgs : List (Arg × List Holder)
@@ -146,8 +153,8 @@ files/ directories, with the arguments (that have files) referring to it -/
 def cacheEntries (c : Cfg) (s : St) : List Entry :=
   (s.disk.filter (fun d => !isTmp d.kind)).map fun d =>
     { path := d.path
-      args := (s.dom.filter fun a => !(c.filesOf a).isEmpty).filter (fun a => refs c a d.path)
-      size := d.size, count := 1 }
+      args := (s.dom.filter fun a => !(c.filesOf a).isEmpty).filter (fun a => refsN c a (d.path :: d.alts))
+      size := d.size, count := 1, names := d.path :: d.alts }
 
 /-- `cacheParamFileMap`, last loop: arguments no entry refers to are dropped -/
 def dropUnused (es : List Entry) (s : St) : St :=
